@@ -506,7 +506,7 @@ func (p *Plugin) appendIndexName(outBuf []byte, event *pipeline.Event) []byte {
 			if value == "" {
 				value = "not_set"
 			}
-			outBuf = append(outBuf, value...)
+			outBuf = appendJSONStringBody(outBuf, value)
 		}
 	}
 	outBuf = append(outBuf, "\"}}"...)
@@ -614,4 +614,21 @@ func (p *Plugin) reportESErrors(data []byte) error {
 
 	p.logger.Error("some events from batch aren't written, check previous logs for more information")
 	return nil
+}
+
+// appendJSONStringBody appends s as the inside of a JSON string:
+// the index value comes from the event and may contain any characters.
+func appendJSONStringBody(dst []byte, s string) []byte {
+	const hex = "0123456789abcdef"
+	for i := 0; i < len(s); i++ {
+		switch c := s[i]; {
+		case c == '"' || c == '\\':
+			dst = append(dst, '\\', c)
+		case c < 0x20:
+			dst = append(dst, '\\', 'u', '0', '0', hex[c>>4], hex[c&0xf])
+		default:
+			dst = append(dst, c)
+		}
+	}
+	return dst
 }
